@@ -56,11 +56,19 @@ def rhs_to_ast(r, subs=None):
         if d[0] == "unif":
             return ("draw", ("unif", d[1], d[2]))
         if d[0] == "cont":
+            order = {"Normal": ["mu", "sigma2"], "Uniform": ["a", "b"], "Laplace": ["mu", "b"], "Exponential": ["lamb"],
+                     "Gamma": ["k", "theta"], "Beta": ["a", "b", "scale"]}.get(d[1])
+            if order is None:
+                raise NotModelled(f"distribution {d[1]}")
+            pd = dict((k, v) for k, v in d[2])
             args = []
-            for _, v in d[2]:
-                if isinstance(v, str):
-                    raise NotModelled(f"distribution parameter {v}")
+            for k in order:
+                v = pd.get(k)
+                if v is None or isinstance(v, str):
+                    raise NotModelled(f"distribution parameter {k}={v}")
                 args.append(poly_to_expr(v, subs))
+            if d[1] == "Beta" and args[2] == P.const(1):
+                args = args[:2]
             return ("draw", ("cont", d[1], args))
     raise NotModelled(f"rhs {r[0]}")
 
@@ -130,6 +138,7 @@ WP_HEADER = ("From Coq Require Import List String QArith Qcanon ZArith.\n"
              "From Polar Require Import Qcx CRing ExpPoly ClosedForm Dist Syntax Sem Types Poly Pipeline Wp Search.\n"
              "Import ListNotations.\nOpen Scope string_scope.\n"
              "Definition cm0 : string -> list Qc -> nat -> Qc := fun _ _ _ => 0%Qc.\n")
+WP_HEADER_CONT = WP_HEADER.replace("Wp Search.", "Wp Search Cmom.")
 
 
 # ---- pass snapshots (tasks_core.dump_program) -> progast programs ---------------------------
